@@ -46,6 +46,7 @@ import M4riProofs.GenTieTop
 import M4riProofs.GenTieTriFinal
 import M4riProofs.GenTieTop2Final
 import M4riProofs.GenTieClose6
+import M4riProofs.GenTieMax
 namespace M4ri.Props.C03
 open M4ri M4ri.BMat
 
@@ -228,3 +229,13 @@ end M4ri.Props.C03
 #check @M4ri.GenTieClose6.cPleFullG_agree
 #check @M4ri.GenTieClose6.cPleFullG_correct
 #check @M4ri.GenTieClose6.cPleFullG_spec
+
+/-! ### AS MUCH GENERATED CODE AS POSSIBLE AT ONCE (GenTieMax.lean): `cPleMax` = the whole generated `_mzd_ple` with its products bound to the generated public
+    `mzd_addmul` over the Strassen recursion over the GENERATED `_mzd_add` (`genAddmulG`), its triangular solve the closed generated
+    `_mzd_trsm_lower_left` over the same product; `cPluqMax` = the generated `_mzd_pluq` over it and over the generated `mzd_apply_p_right_trans_tri`:
+    a valid PLE resp. PLUQ factorisation with r = rank A for every depth -/
+#check @M4ri.GenTieMax.genAddmulG_sim
+#check @M4ri.GenTieMax.cPleMax_spec
+#check @M4ri.GenTieMax.cPluqMax_agree
+#check @M4ri.GenTieMax.c_pluq_max
+#check @M4ri.GenTieMax.c_pluq_max_russian_rank
